@@ -15,7 +15,7 @@ pub const DEF: PropDef = PropDef {
     run,
     replay,
     level: "exploration",
-    rule: "cases = (cipher x hash x DH suite, backend default / ring-first, read path in {handshake payload of message i of NN/XX/IK/N/KK/XXpsk3, stateful transport, stateless transport}, high-entropy plaintext of 32..65000 bytes (classes 32..4096, 16384, 32767/32768, 40000, 65000), alteration that keeps the key correct: one bit of the tag, one byte of the body, last byte dropped, or (handshake) the associated data only - an earlier unauthenticated payload altered so that h differs while the key does not -, caller's output buffer pre-filled with a pattern and sized exact / +1 / = message length / larger). Oracle: the read returns Err and afterwards NO 8-byte window of the genuine plaintext occurs anywhere in the caller's buffer (decrypt-then-verify or copy-before-check would put it there; chance coincidence 2^-64 per window). The unaltered message is then read successfully (control). Non-trivial = rejected read with the correct key in place; distinct by full case",
+    rule: "cases = (cipher x hash x DH suite, backend default / ring-first, read path in {handshake payload of message i of NN/XX/IK/N/KK/XXpsk3, stateful transport, stateless transport}, high-entropy plaintext of 32..65000 bytes (classes 32..4096, 16384, 32767/32768, 40000, 65000), alteration that keeps the key correct: one bit of the tag, one byte of the body, last byte dropped, or (handshake) the associated data only - an earlier unauthenticated payload altered so that h differs while the key does not -, caller's output buffer pre-filled with a pattern and sized exact / +1 / = message length / larger / larger than 65535 / 128 KiB). Oracle: the read returns Err and afterwards NO 8-byte window of the genuine plaintext occurs anywhere in the caller's buffer and no position-aligned run of 6 or more plaintext bytes either (a leaked tail shorter than 8 bytes) (decrypt-then-verify or copy-before-check would put it there; chance coincidence 2^-64 per window). The unaltered message is then read successfully (control). Non-trivial = rejected read with the correct key in place; distinct by full case",
     technique: "invariant check on the caller-visible buffer after injected authentication failures (enumeration over paths x backends x buffer sizes + proptest)",
     assumptions: &["only alterations that leave the decryption key correct are generated - with a wrong key no implementation can produce the plaintext"],
     panic_is_violation: false,
@@ -66,6 +66,21 @@ fn leaks(buf: &[u8], plain: &[u8]) -> Option<(usize, usize)> {
     if plain.len() < 8 {
         return None;
     }
+    // position-aligned fragments of 6 bytes or more (in-place decryption leaves plaintext where
+    // it would have been returned; catches a leaked tail shorter than 8 bytes; the pre-fill
+    // pattern never equals 6 bytes of a high-entropy plaintext except with chance 2^-48)
+    let m = buf.len().min(plain.len());
+    let mut run = 0usize;
+    for i in 0..m {
+        if buf[i] == plain[i] {
+            run += 1;
+            if run >= 6 {
+                return Some((i + 1 - run, i + 1 - run));
+            }
+        } else {
+            run = 0;
+        }
+    }
     let windows: HashSet<&[u8]> = plain.windows(8).collect();
     for (i, w) in buf.windows(8).enumerate() {
         if windows.contains(w) {
@@ -81,13 +96,15 @@ fn oracle(c: &Case, acc: &mut Acc) -> CaseResult {
     let suite = suites[c.suite_idx % suites.len()];
     let plain = expand(c.seed, 77, c.plen.max(8));
     let prefill = |n: usize| -> Vec<u8> { (0..n).map(|i| 0xC0 | (i as u8 & 0x0f)).collect() };
-    let bufsize = |msg_len: usize| match c.bufsize % 6 {
+    let bufsize = |msg_len: usize| match c.bufsize % 8 {
         0 => plain.len(),
         1 => plain.len() + 1,
         2 => msg_len,
         3 => msg_len + 100,
         4 => 65535.max(plain.len()),
-        _ => 2 * msg_len + 7,
+        5 => 2 * msg_len + 7,
+        6 => 65536 + 4096,
+        _ => 2 * 65536 + 1,
     };
     let alter_msg = |msg: &mut Vec<u8>, payload_off: usize| match c.alter {
         Alter::TagBit(b) => {
@@ -201,6 +218,18 @@ fn oracle(c: &Case, acc: &mut Acc) -> CaseResult {
                     ti.rekey_outgoing();
                     tr.rekey_incoming();
                 }
+                // the message number: 0, or both counters moved to a large value first
+                let base = match c.seed % 5 {
+                    0 | 1 => 0,
+                    2 => (1u64 << 32) + (c.seed >> 40),
+                    3 => (1u64 << 63) | (c.seed >> 8),
+                    _ => u64::MAX - 2,
+                };
+                if base != 0 {
+                    ti.verif_set_sending_nonce(base);
+                    tr.set_receiving_nonce(base);
+                    acc.label("stateful:large_message_number");
+                }
                 let genuine = t_write(&mut ti, &plain, plain.len() + 16).map_err(|x| Fail::setup(e(&x)))?;
                 let mut msg = genuine.clone();
                 alter_msg(&mut msg, 0);
@@ -243,7 +272,7 @@ fn oracle(c: &Case, acc: &mut Acc) -> CaseResult {
     acc.label(format!("backend:{:?}", if ring_covers(suite) { c.backend } else { Backend::Default }));
     acc.label(format!("path:{}", match &c.path { Path::Hs(..) => "handshake", Path::Stateful => "stateful", Path::Stateless => "stateless" }));
     acc.label(format!("alter:{}", format!("{:?}", c.alter).split('(').next().unwrap()));
-    acc.label(format!("bufsize:{}", c.bufsize % 6));
+    acc.label(format!("bufsize:{}", c.bufsize % 8));
     if plain.len() < 32 {
         acc.label("plaintext:<32");
     }
@@ -280,7 +309,7 @@ pub fn run(ctx: &Ctx) {
             }
             for path in paths() {
                 for alter in [Alter::TagBit(0), Alter::TagBit(127), Alter::BodyByte(0), Alter::BodyByte(31), Alter::DropLast, Alter::Ad, Alter::Extend(0), Alter::Extend(16), Alter::CutPayloadField(0), Alter::CutPayloadField(15)] {
-                    for bufsize in 0..6u8 {
+                    for bufsize in 0..8u8 {
                         k += 1;
                         if ctx.tier.pick((k + suite_idx as u64) % 2 != 0, false) {
                             continue;
@@ -288,7 +317,7 @@ pub fn run(ctx: &Ctx) {
                         if ctx.tier.pick(bufsize >= 4 && k % 3 != 0, false) {
                             continue;
                         }
-                        cases.push(Case { path: path.clone(), suite_idx, backend, plen: [32usize, 33, 64, 100, 1000, 4096, 16384, 32768, 40000, 65000, 8, 9, 15, 16, 17, 24, 31][(k % 17) as usize], alter, bufsize, seed: mix(ctx.seed, k), repeat: (k % 5 == 0) as u8 * 2, rekey_first: k % 7 == 0 });
+                        cases.push(Case { path: path.clone(), suite_idx, backend, plen: [32usize, 33, 64, 100, 1000, 4096, 16384, 32768, 40000, 65000, 8, 9, 15, 16, 17, 24, 31, 4080, 8192, 12288, 4096 * 3 - 16, 20480, 61440, 4097, 9000][(k % 25) as usize], alter, bufsize, seed: mix(ctx.seed, k), repeat: (k % 5 == 0) as u8 * 2, rekey_first: k % 7 == 0 });
                     }
                 }
             }
@@ -302,7 +331,7 @@ pub fn run(ctx: &Ctx) {
         || {
             let ps = paths();
             let alter = prop_oneof![3 => any::<u8>().prop_map(Alter::TagBit), 3 => any::<u16>().prop_map(Alter::BodyByte), 1 => Just(Alter::DropLast), 1 => Just(Alter::Ad), 1 => any::<u8>().prop_map(Alter::Extend), 1 => any::<u8>().prop_map(Alter::CutPayloadField)];
-            (0usize..10, 0usize..24, any::<bool>(), prop_oneof![2 => 8usize..32, 6 => 32usize..4097, 2 => 4097usize..65000, 1 => Just(32767usize), 1 => Just(32768usize), 1 => Just(65000usize)], alter, 0u8..6, any::<u64>()).prop_map(move |(p, suite_idx, ring, plen, alter, bufsize, seed)| Case {
+            (0usize..10, 0usize..24, any::<bool>(), prop_oneof![2 => 8usize..32, 6 => 32usize..4097, 2 => 4097usize..65000, 2 => (1usize..16, 0usize..3).prop_map(|(k, d)| k * 4096 - [0usize, 16, 1][d]), 1 => Just(32767usize), 1 => Just(32768usize), 1 => Just(65000usize)], alter, 0u8..8, any::<u64>()).prop_map(move |(p, suite_idx, ring, plen, alter, bufsize, seed)| Case {
                 path: ps[p].clone(),
                 suite_idx,
                 backend: if ring { Backend::RingFirst } else { Backend::Default },
